@@ -369,7 +369,7 @@ pub fn plan(seed: u64, tier: Tier) -> Plan {
             }
         }
     }
-    Plan { shapes, slots, streams, n_bytes: scaled(tier.pick(70_000, 3_000_000)) }
+    Plan { shapes, slots, streams, n_bytes: scaled(tier.pick(70_000, 2_000_000)) }
 }
 
 fn size_law_for(curve: Curve, gates: usize) -> usize {
